@@ -18,9 +18,26 @@ pub struct Config {
     /// squares a followed move of a Gold / Silver piece may land on
     pub dom_gold: Vec<usize>,
     pub dom_silver: Vec<usize>,
+    /// wider domains used only during the first turn from the root ("funnel": one free turn, then a tiny shuffle domain)
+    pub first_gold: Option<Vec<usize>>,
+    pub first_silver: Option<Vec<usize>>,
     /// None = explore until no new state appears
     pub max_turns: Option<usize>,
     pub max_states: usize,
+}
+
+impl Config {
+    /// may a followed move of a piece of this colour land on `to`?
+    pub fn allowed(&self, gold_piece: bool, to: usize, first_turn: bool) -> bool {
+        let d = if gold_piece {
+            if first_turn { self.first_gold.as_ref().unwrap_or(&self.dom_gold) } else { &self.dom_gold }
+        } else if first_turn {
+            self.first_silver.as_ref().unwrap_or(&self.dom_silver)
+        } else {
+            &self.dom_silver
+        };
+        d.contains(&to)
+    }
 }
 
 pub fn sq(name: &str) -> usize {
@@ -66,6 +83,8 @@ pub fn config_json(c: &Config) -> serde_json::Value {
         "name": c.name, "gold_to_move": c.gold_to_move,
         "dom_gold": c.dom_gold.iter().map(|&s| rm::sq_name(s)).collect::<Vec<_>>(),
         "dom_silver": c.dom_silver.iter().map(|&s| rm::sq_name(s)).collect::<Vec<_>>(),
+        "first_turn_dom_gold": c.first_gold.as_ref().map(|v| v.iter().map(|&s| rm::sq_name(s)).collect::<Vec<_>>()),
+        "first_turn_dom_silver": c.first_silver.as_ref().map(|v| v.iter().map(|&s| rm::sq_name(s)).collect::<Vec<_>>()),
         "max_turns": c.max_turns,
     })
 }
@@ -106,7 +125,7 @@ pub fn run_config(prop: &str, checks: u32, cfg: &Config, idx: u64) -> FamilyResu
                         match rm::nb(f, dir_index(d)) {
                             Some(to) => {
                                 let c = node.board[f];
-                                c != rm::EMPTY && if rm::is_gold(c) { cfg.dom_gold.contains(&to) } else { cfg.dom_silver.contains(&to) }
+                                c != rm::EMPTY && cfg.allowed(rm::is_gold(c), to, node.hist.len() == 1)
                             }
                             None => false,
                         }
@@ -174,7 +193,13 @@ fn diagram(rows: [&str; 8]) -> String {
 }
 
 fn cfg(name: &str, rows: [&str; 8], gold: bool, dg: &str, ds: &str, max_turns: Option<usize>) -> Config {
-    Config { name: name.into(), diagram: diagram(rows), gold_to_move: gold, dom_gold: sqs(dg), dom_silver: sqs(ds), max_turns, max_states: if max_turns.is_some() { 3_000_000 } else { 600_000 } }
+    Config { name: name.into(), diagram: diagram(rows), gold_to_move: gold, dom_gold: sqs(dg), dom_silver: sqs(ds), first_gold: None, first_silver: None, max_turns, max_states: if max_turns.is_some() { 3_000_000 } else { 600_000 } }
+}
+
+fn funnel(mut c: Config, fg: &str, fs: &str) -> Config {
+    c.first_gold = Some(sqs(fg));
+    c.first_silver = Some(sqs(fs));
+    c
 }
 
 pub fn configs(thorough: bool) -> Vec<Config> {
@@ -321,6 +346,70 @@ pub fn configs(thorough: bool) -> Vec<Config> {
         false,
         "g1 h1 g2 h2",
         "g1 h1 g2 h2",
+        None,
+    ));
+    // 9. funnel: one free first turn in which a capture can fall on the FOURTH step (pull completion drags the only
+    //    supporter of the cat on c3 away), then a tiny shuffle domain (E e4/e5, r h8/g8) explored to fix-point:
+    //    history bookkeeping on the 'fourth step that itself captures' path
+    v.push(funnel(
+        cfg(
+            "funnel 4th-step capture: silver c on c3 supported only by d c4; Gold E e5 may walk e5-d5-d4-e4 and complete the pull on step 4; then E e4/e5 and r h8/g8 shuffle",
+            [
+                "               r ",
+                "                 ",
+                "     x     x     ",
+                "         E       ",
+                "     d           ",
+                "     c     x     ",
+                "                 ",
+                " R               ",
+            ],
+            true,
+            "e4 e5",
+            "h8 g8",
+            None,
+        ),
+        "e5 d5 d4 e4",
+        "d4 h8 g8",
+    ));
+    // 9b. the colour-swapped, mirrored twin with Silver to move
+    v.push(funnel(
+        cfg(
+            "funnel 4th-step capture (Silver): gold C on f6 supported only by D f5; silver e d4 may walk d4-e4-e5-d5 and complete the pull on step 4; then e d5/d4 and R a1/b1 shuffle",
+            [
+                "               r ",
+                "                 ",
+                "     x     C     ",
+                "           D     ",
+                "       e         ",
+                "     x     x     ",
+                "                 ",
+                " R               ",
+            ],
+            false,
+            "a1 b1",
+            "d5 d4",
+            None,
+        ),
+        "e5 a1 b1",
+        "d4 e4 e5 d5",
+    ));
+    // 10. capture on step 1-3 followed by a pass, and by a 4th step: Gold E pushes a rabbit into c3, then both shuffle
+    v.push(cfg(
+        "capture mid-turn then pass / 4th step: Gold E b4 pushes r c4 into c3; E and silver d shuffle afterwards",
+        [
+            "               r ",
+            "             d   ",
+            "     x     x     ",
+            "                 ",
+            "   E r           ",
+            "     x     x     ",
+            "                 ",
+            "               R ",
+        ],
+        true,
+        "b4 c4 d4",
+        "c4 c3 g7 g6",
         None,
     ));
     if thorough {
